@@ -682,4 +682,620 @@ theorem hasDup_false (fs : List Fld) (h : fs.Nodup) : hasDup fs = false := by
     simp only [hasDup, ih h.2, Bool.or_false, List.contains_eq_mem, decide_eq_false_iff_not]
     exact h.1
 
+/-! ### strptime: the assembled regex matches what strftime printed, group by group -/
+
+/-- The text printed for property `f`. -/
+def valOf (c : DumpCtx) (f : Fld) : List Char := renderPiece c (.fld f)
+
+/-- The printed text of `f` is matched (entirely) by the capture pattern of `f`. -/
+def Fits (c : DumpCtx) (f : Fld) : Prop :=
+  match patOf f with
+  | .digits n => (valOf c f).length = n ∧ ∀ ch ∈ valOf c f, isDigitC ch = true
+  | .signPM => valOf c f = ['+'] ∨ valOf c f = ['-']
+  | .unixNum => unixSyntax (valOf c f) = true
+
+def bindingsOf (c : DumpCtx) (ps : List Piece) : List (Fld × List Char) :=
+  (fldsOf ps).map fun f => (f, valOf c f)
+
+theorem patOf_unix (f : Fld) (h : patOf f = .unixNum) : f = .unix := by
+  cases f <;> simp [patOf] at h <;> rfl
+
+theorem renderPieces_cons (c : DumpCtx) (x : Piece) (ps : List Piece) :
+    renderPieces c (x :: ps) = renderPiece c x ++ renderPieces c ps := by
+  simp [renderPieces]
+
+theorem width_rendered (c : DumpCtx) (ps : List Piece) (hfit : ∀ f ∈ fldsOf ps, Fits c f)
+    (hnu : Fld.unix ∉ fldsOf ps) : (renderPieces c ps).length = (ps.map pieceWidth).sum := by
+  induction ps with
+  | nil => rfl
+  | cons x xs ih =>
+    rw [renderPieces_cons, List.length_append, List.map_cons, List.sum_cons]
+    cases x with
+    | lit ch =>
+      rw [ih (fun f hf => hfit f (by simpa [fldsOf] using hf)) (by simpa [fldsOf] using hnu)]
+      rfl
+    | fld f =>
+      simp only [fldsOf, List.mem_cons, not_or] at hnu
+      rw [ih (fun g hg => hfit g (by simp [fldsOf, hg])) hnu.2]
+      congr 1
+      have hf := hfit f (by simp [fldsOf])
+      unfold Fits at hf
+      show (valOf c f).length = pieceWidth (.fld f)
+      have hpw : pieceWidth (.fld f) =
+          match patOf f with
+          | .digits n => n
+          | .signPM => 1
+          | .unixNum => 0 := rfl
+      rw [hpw]
+      cases hp : patOf f with
+      | digits n => rw [hp] at hf; exact hf.1
+      | signPM =>
+        rw [hp] at hf
+        rcases hf with hf | hf <;> (rw [hf]; rfl)
+      | unixNum => exact absurd (patOf_unix f hp).symm hnu.1
+
+theorem all_of_forall (l : List Char) (h : ∀ ch ∈ l, isDigitC ch = true) : l.all isDigitC = true := by
+  simpa using h
+
+theorem match_rendered (c : DumpCtx) (ps : List Piece) (hfit : ∀ f ∈ fldsOf ps, Fits c f)
+    (hnd : (fldsOf ps).Nodup) : matchPieces ps (renderPieces c ps) = some (bindingsOf c ps) := by
+  induction ps with
+  | nil => rfl
+  | cons x xs ih =>
+    rw [renderPieces_cons]
+    cases x with
+    | lit ch =>
+      have := ih (fun f hf => hfit f (by simpa [fldsOf] using hf)) (by simpa [fldsOf] using hnd)
+      simp only [renderPiece, List.singleton_append, matchPieces, ↓reduceIte, this]
+      rfl
+    | fld f =>
+      simp only [fldsOf, List.nodup_cons] at hnd
+      have ih' := ih (fun g hg => hfit g (by simp [fldsOf, hg])) hnd.2
+      have hf := hfit f (by simp [fldsOf])
+      unfold Fits at hf
+      have hb : bindingsOf c (.fld f :: xs) = (f, valOf c f) :: bindingsOf c xs := rfl
+      show matchPieces (.fld f :: xs) (valOf c f ++ renderPieces c xs) = _
+      rw [hb]
+      unfold matchPieces
+      cases hp : patOf f with
+      | digits n =>
+        rw [hp] at hf
+        obtain ⟨hl, hd⟩ := hf
+        have ht : (valOf c f ++ renderPieces c xs).take n = valOf c f := by
+          rw [← hl]; exact List.take_left
+        have hdr : (valOf c f ++ renderPieces c xs).drop n = renderPieces c xs := by
+          rw [← hl]; exact List.drop_left
+        simp only [ht, hdr, ih', Option.map_some, all_of_forall _ hd, and_true, List.length_append]
+        rw [if_pos (by omega)]
+      | signPM =>
+        rw [hp] at hf
+        rcases hf with hf | hf <;> simp [hf, ih']
+      | unixNum =>
+        rw [hp] at hf
+        have hfu := patOf_unix f hp
+        have hw := width_rendered c xs (fun g hg => hfit g (by simp [fldsOf, hg])) (by rw [← hfu]; exact hnd.1)
+        have hk : (valOf c f ++ renderPieces c xs).length - (xs.map pieceWidth).sum = (valOf c f).length := by
+          rw [List.length_append, hw]; omega
+        have ht : (valOf c f ++ renderPieces c xs).take (valOf c f).length = valOf c f := List.take_left
+        have hdr : (valOf c f ++ renderPieces c xs).drop (valOf c f).length = renderPieces c xs :=
+          List.drop_left
+        simp only [hk, ht, hdr, hf, ih', Option.map_some, and_true]
+        rw [if_pos (by rw [List.length_append, hw]; omega)]
+
+theorem lookup_bindings (c : DumpCtx) (fs : List Fld) (f : Fld) :
+    (fs.map fun g => (g, valOf c g)).lookup f = if f ∈ fs then some (valOf c f) else none := by
+  induction fs with
+  | nil => rfl
+  | cons g rest ih =>
+    simp only [List.map_cons, List.lookup_cons, List.mem_cons]
+    by_cases h : f = g
+    · subst h; simp
+    · have : (f == g) = false := by simpa using h
+      rw [this, ih]
+      simp [h]
+
+/-! ### strptime: Unix-time text -/
+
+theorem isDigitC_ne_minus (ch : Char) (h : isDigitC ch = true) : ch ≠ '-' := by
+  intro e; subst e; exact absurd h (by decide)
+
+theorem decimal_head (n : Nat) : ∃ d0 tl, decimal n = d0 :: tl ∧ isDigitC d0 = true := by
+  have hne := decimal_ne_nil n
+  cases hd : decimal n with
+  | nil => exact absurd hd hne
+  | cons d0 tl => exact ⟨d0, tl, rfl, decimal_digits n d0 (by rw [hd]; simp)⟩
+
+theorem takeWhile_all (l : List Char) (h : ∀ ch ∈ l, isDigitC ch = true) :
+    l.takeWhile isDigitC = l ∧ l.dropWhile isDigitC = [] := by
+  induction l with
+  | nil => exact ⟨rfl, rfl⟩
+  | cons x xs ih =>
+    have hx := h x (by simp)
+    have := ih (fun ch hc => h ch (by simp [hc]))
+    simp [List.takeWhile, List.dropWhile, hx, this.1, this.2]
+
+/-- The body of a Unix-time text: the text without its minus sign. -/
+def unixBody (s : List Char) : List Char :=
+  match s with
+  | '-' :: r => r
+  | r => r
+
+def unixNeg (s : List Char) : Bool :=
+  match s with
+  | '-' :: _ => true
+  | _ => false
+
+theorem unixBody_digits (s : List Char) (d0 : Char) (tl : List Char) (hs : s = d0 :: tl)
+    (hd : isDigitC d0 = true) : unixBody s = s ∧ unixNeg s = false := by
+  subst hs
+  have hne := isDigitC_ne_minus d0 hd
+  unfold unixBody unixNeg
+  constructor
+  · split
+    · rename_i r heq; simp only [List.cons.injEq] at heq; exact absurd heq.1 hne
+    · rfl
+  · split
+    · rename_i r heq; simp only [List.cons.injEq] at heq; exact absurd heq.1 hne
+    · rfl
+
+theorem unixSyntax_eq (s : List Char) :
+    unixSyntax s = (!((unixBody s).takeWhile isDigitC).isEmpty &&
+      (match (unixBody s).dropWhile isDigitC with
+       | [] => true
+       | ch :: r => (ch == ',' || ch == '.') && r.all isDigitC)) := rfl
+
+theorem parseUnix_eq (s : List Char) :
+    parseUnix s =
+      (match (unixBody s).dropWhile isDigitC with
+       | [] => .ok (if unixNeg s then -(parseNat ((unixBody s).takeWhile isDigitC) : Int)
+                    else (parseNat ((unixBody s).takeWhile isDigitC) : Int))
+       | ch :: r =>
+         if ch == ',' then .error .value
+         else if r.all (· == '0') then
+           .ok (if unixNeg s then -(parseNat ((unixBody s).takeWhile isDigitC) : Int)
+                else (parseNat ((unixBody s).takeWhile isDigitC) : Int))
+         else .error .badInput) := rfl
+
+theorem unix_text (z : Int) :
+    unixSyntax (decimalInt z) = true ∧ parseUnix (decimalInt z) = .ok z := by
+  obtain ⟨d0, tl, hd, hdig⟩ := decimal_head (if z < 0 then z.natAbs else z.toNat)
+  have hall := decimal_digits (if z < 0 then z.natAbs else z.toNat)
+  have htw := takeWhile_all _ hall
+  have hpn := parseNat_decimal (if z < 0 then z.natAbs else z.toNat)
+  by_cases hz : z < 0
+  · simp only [hz, ↓reduceIte] at hd hall htw hpn
+    have hb : unixBody (decimalInt z) = decimal z.natAbs ∧ unixNeg (decimalInt z) = true := by
+      unfold decimalInt; rw [if_pos hz]; exact ⟨rfl, rfl⟩
+    rw [unixSyntax_eq, parseUnix_eq, hb.1, hb.2, htw.1, htw.2, hpn, hd]
+    refine ⟨rfl, ?_⟩
+    simp only [↓reduceIte]
+    congr 1
+    omega
+  · simp only [hz, ↓reduceIte] at hd hall htw hpn
+    have hdz : decimalInt z = decimal z.toNat := by unfold decimalInt; rw [if_neg hz]
+    have hb := unixBody_digits (decimalInt z) d0 tl (by rw [hdz, hd]) hdig
+    rw [unixSyntax_eq, parseUnix_eq, hb.1, hb.2, hdz, htw.1, htw.2, hpn, hd]
+    refine ⟨rfl, ?_⟩
+    simp only [Bool.false_eq_true, ↓reduceIte]
+    congr 1
+    omega
+
+/-! ### strptime: from the captured groups back to the point -/
+
+theorem zpad_fits (w : Nat) (z : Int) (hw : 1 ≤ w) (h0 : 0 ≤ z) (h1 : z.toNat < 10 ^ w) :
+    (zpad w z).length = w ∧ (∀ ch ∈ zpad w z, isDigitC ch = true) ∧ (parseNat (zpad w z) : Int) = z := by
+  rw [zpad_eq_render w z hw h0 h1]
+  refine ⟨render_length _ _, render_digits _ _, ?_⟩
+  rw [parseNat_render, Nat.mod_eq_of_lt h1]
+  omega
+
+theorem tz_abs_bounds (z : TZ) (hz : z.Valid) :
+    0 ≤ tzHourAbs z ∧ (tzHourAbs z).toNat < 10 ^ 2 ∧ 0 ≤ tzMinuteAbs z ∧ (tzMinuteAbs z).toNat < 10 ^ 2 := by
+  obtain ⟨h1, h2, h3, h4, h5, h6⟩ := hz
+  unfold tzHourAbs tzMinuteAbs
+  split <;> split <;> omega
+
+/-- Every property of a valid point with a civil year in 0000–9999 prints a text its own capture
+    pattern matches. -/
+theorem fits_all (m : Mode) (p : TP) (hv : p.Valid m) (c : Civil) (hc : IsCivil m p c)
+    (hy : 0 ≤ c.year ∧ c.year ≤ 9999) (f : Fld) : Fits (ctxOf p c) f := by
+  obtain ⟨r1, r2, r3, r4, r5, r6, r7, r8, r9, r10, r11, r12⟩ := civil_ranges m p hv c hc
+  obtain ⟨_, _, _, e1, e2, e3, e4, _⟩ := hc
+  have ha : absI c.year = c.year := by unfold absI; rw [if_neg (by omega)]
+  obtain ⟨t1, t2, t3, t4⟩ := tz_abs_bounds p.tz hv.2.2.2.2.2.2.2.2
+  cases f
+  case century =>
+    have := zpad_fits 2 (absI c.year % 10000 / 100) (by omega) (by omega) (by omega)
+    exact ⟨this.1, this.2.1⟩
+  case yearOfCentury =>
+    have := zpad_fits 2 (absI c.year % 100) (by omega) (by omega) (by omega)
+    exact ⟨this.1, this.2.1⟩
+  case monthOfYear =>
+    have := zpad_fits 2 c.month (by omega) (by omega) (by omega)
+    exact ⟨this.1, this.2.1⟩
+  case dayOfMonth =>
+    have := zpad_fits 2 c.day (by omega) (by omega) (by omega)
+    exact ⟨this.1, this.2.1⟩
+  case dayOfYear =>
+    have := zpad_fits 3 c.yday (by omega) (by omega) (by omega)
+    exact ⟨this.1, this.2.1⟩
+  case hourOfDay =>
+    have := zpad_fits 2 p.hh (by omega) (by omega) (by omega)
+    exact ⟨this.1, this.2.1⟩
+  case minuteOfHour =>
+    have := zpad_fits 2 p.mi (by omega) (by omega) (by omega)
+    exact ⟨this.1, this.2.1⟩
+  case secondOfMinute =>
+    have := zpad_fits 2 p.ss (by omega) (by omega) (by omega)
+    exact ⟨this.1, this.2.1⟩
+  case tzSign =>
+    show ([if tzSign p.tz < 0 then '-' else '+'] = ['+'] ∨ [if tzSign p.tz < 0 then '-' else '+'] = ['-'])
+    split
+    · exact Or.inr rfl
+    · exact Or.inl rfl
+  case tzHourAbs =>
+    have := zpad_fits 2 (tzHourAbs p.tz) (by omega) t1 t2
+    exact ⟨this.1, this.2.1⟩
+  case tzMinuteAbs =>
+    have := zpad_fits 2 (tzMinuteAbs p.tz) (by omega) t3 t4
+    exact ⟨this.1, this.2.1⟩
+  case unix =>
+    show unixSyntax (showInt c.unix) = true
+    rw [showInt_eq_decimalInt]
+    exact (unix_text c.unix).1
+
+theorem numOf_bindings (c : DumpCtx) (ps : List Piece) (f : Fld) :
+    numOf (bindingsOf c ps) f = if f ∈ fldsOf ps then some (parseNat (valOf c f) : Int) else none := by
+  unfold numOf bindingsOf
+  rw [lookup_bindings]
+  split <;> rfl
+
+theorem mkTZ_valid (m : Mode) (z : TZ) (hz : z.Valid) : mkTZ m z.h z.mi = some z := by
+  unfold mkTZ
+  rw [minutesInHour_eq]
+  simp only
+  unfold TZ.Valid at hz
+  rw [if_neg (by omega), if_neg]
+  split <;> split <;> omega
+
+theorem zone_back (z : TZ) (hz : z.Valid) :
+    (if tzSign z < 0 then (⟨-(tzHourAbs z), -(tzMinuteAbs z)⟩ : TZ) else ⟨tzHourAbs z, tzMinuteAbs z⟩) = z := by
+  obtain ⟨zh, zm⟩ := z
+  obtain ⟨h1, h2, h3, h4, h5, h6⟩ := hz
+  simp only at h1 h2 h3 h4 h5 h6
+  unfold tzSign tzHourAbs tzMinuteAbs
+  simp only
+  split <;> split <;> split <;> split <;> simp only [TZ.mk.injEq] <;> omega
+
+theorem fromUnix_local (m : Mode) (n : Int) (loc : TZ) (hz : loc.Valid) :
+    ∃ q, fromUnix m n (some loc) = some q ∧ q.inst m = epochInst m + n ∧ q.Strict m ∧ q.tz = loc := by
+  obtain ⟨r, e1, i1, t1, r1, v1, _⟩ := toTimeZone_spec m unixEpoch loc (unixEpoch_valid m) hz
+  obtain ⟨q, e, g⟩ := addDur_exact_units m r 0 0 0 n v1
+  refine ⟨q, ?_, ?_, g.strict, ?_⟩
+  · simp only [fromUnix, e1, Option.bind_some, e]
+  · rw [g.inst, i1, unixEpoch_inst]; omega
+  · rw [g.tz, t1]
+
+/-- The `TimePoint(...)` call accepts the fields of a valid point. -/
+theorem mkPoint_valid (m : Mode) (q : TP) (hq : q.Valid m) (hrep : q.date.rep ≠ 2)
+    (mo d doy : Option Int)
+    (hdate : (∃ y mm dd, q.date = .cal y mm dd ∧ mo = some mm ∧ d = some dd ∧ doy = none) ∨
+             (∃ y n, q.date = .ord y n ∧ mo = none ∧ d = none ∧ doy = some n)) :
+    mkPoint m (dateYear q.date) mo d doy (some q.hh) (some q.mi) (some q.ss) q.tz.h q.tz.mi = .ok q := by
+  obtain ⟨hdv, a1, a2, a3, a4, a5, a6, a7, hz⟩ := hq
+  have htime : timeOk m q.hh q.mi q.ss = true := by
+    unfold timeOk
+    rw [hoursInDay_eq, minutesInHour_eq, secondsInMinute_eq]
+    by_cases h24 : q.hh = 24
+    · have := a7 h24
+      simp [h24, this.1, this.2]
+    · simp only [h24, ↓reduceIte, Bool.and_eq_true, decide_eq_true_eq]
+      omega
+  unfold mkPoint
+  rw [mkTZ_valid m q.tz hz]
+  simp only [Option.getD_some]
+  rcases hdate with ⟨y, mm, dd, hd, rfl, rfl, rfl⟩ | ⟨y, n, hd, rfl, rfl, rfl⟩
+  · rw [hd] at hdv
+    obtain ⟨v1, v2, v3, v4⟩ := hdv
+    have hok : dateOk m (.cal y mm dd) = true := by
+      simp only [dateOk, monthsInYear_eq, daysInMonth_eq m y mm v1 v2, decide_eq_true_eq]
+      exact ⟨v1, v2, v3, v4⟩
+    simp only [Option.isSome_none, Bool.false_eq_true, and_false, ↓reduceIte, Option.getD_some, hd,
+      dateYear, pickDate, hok, htime, Bool.and_self]
+    obtain ⟨qd, qh, qm, qs, qz⟩ := q
+    simp only at hd
+    subst hd
+    rfl
+  · rw [hd] at hdv
+    obtain ⟨v1, v2⟩ := hdv
+    have hok : dateOk m (.ord y n) = true := by
+      simp only [dateOk, daysInYear_eq, decide_eq_true_eq]
+      exact ⟨v1, v2⟩
+    simp only [Option.getD_none, ne_eq, not_true_eq_false, or_self, false_and, ↓reduceIte, hd, dateYear,
+      pickDate, hok, htime, Bool.and_self]
+    obtain ⟨qd, qh, qm, qs, qz⟩ := q
+    simp only at hd
+    subst hd
+    rfl
+
+theorem lookup_bindingsOf (c : DumpCtx) (ps : List Piece) (f : Fld) :
+    (bindingsOf c ps).lookup f = if f ∈ fldsOf ps then some (valOf c f) else none := by
+  unfold bindingsOf; exact lookup_bindings c (fldsOf ps) f
+
+theorem hasZone_bindings (c : DumpCtx) (ps : List Piece) (h : Fld.tzSign ∈ fldsOf ps) :
+    ((bindingsOf c ps).any fun e => clsOf e.1 == .zone) = true := by
+  rw [List.any_eq_true]
+  exact ⟨(.tzSign, valOf c .tzSign), List.mem_map.mpr ⟨.tzSign, h, rfl⟩, rfl⟩
+
+theorem sign_captured (z : TZ) :
+    (some [if tzSign z < 0 then '-' else '+'] == some ['-']) = decide (tzSign z < 0) := by
+  by_cases h : tzSign z < 0
+  · simp [h]
+  · simp only [h, ↓reduceIte, decide_false]
+    decide
+
+/-- From the groups captured out of the printed text of a format that names year, hour, minute,
+    second, zone and either month + day or the day of the year (and not `%s`), the parser rebuilds a
+    valid point with the same local date, clock fields and offset, hence the same instant. -/
+theorem assemble_full (m : Mode) (p : TP) (hv : p.Valid m) (c : Civil) (hc : IsCivil m p c)
+    (hy : 0 ≤ c.year ∧ c.year ≤ 9999) (cfg : PCfg) (loc : TZ) (ps : List Piece)
+    (hnu : Fld.unix ∉ fldsOf ps) (h1 : Fld.century ∈ fldsOf ps) (h2 : Fld.yearOfCentury ∈ fldsOf ps)
+    (h3 : Fld.hourOfDay ∈ fldsOf ps) (h4 : Fld.minuteOfHour ∈ fldsOf ps) (h5 : Fld.secondOfMinute ∈ fldsOf ps)
+    (h6 : Fld.tzSign ∈ fldsOf ps) (h7 : Fld.tzHourAbs ∈ fldsOf ps) (h8 : Fld.tzMinuteAbs ∈ fldsOf ps)
+    (hdate : (Fld.monthOfYear ∈ fldsOf ps ∧ Fld.dayOfMonth ∈ fldsOf ps ∧ Fld.dayOfYear ∉ fldsOf ps) ∨
+             (Fld.dayOfYear ∈ fldsOf ps ∧ Fld.monthOfYear ∉ fldsOf ps ∧ Fld.dayOfMonth ∉ fldsOf ps)) :
+    ∃ q, assemble m cfg loc (bindingsOf (ctxOf p c) ps) = .ok q ∧ q.inst m = p.inst m ∧ q.Valid m ∧
+      q.tz = p.tz ∧ q.hh = p.hh ∧ q.mi = p.mi ∧ q.ss = p.ss ∧ q.date.rep ≠ 2 := by
+  obtain ⟨r1, r2, r3, r4, r5, r6, r7, r8, r9, r10, r11, r12⟩ := civil_ranges m p hv c hc
+  obtain ⟨hcv, hcn, hyd, e1, e2, e3, e4, _⟩ := hc
+  have hzv : p.tz.Valid := hv.2.2.2.2.2.2.2.2
+  have ha : absI c.year = c.year := by unfold absI; rw [if_neg (by omega)]
+  obtain ⟨t1, t2, t3, t4⟩ := tz_abs_bounds p.tz hzv
+  have vcen : (parseNat (valOf (ctxOf p c) .century) : Int) = absI c.year % 10000 / 100 :=
+    (zpad_fits 2 (absI c.year % 10000 / 100) (by omega) (by omega) (by omega)).2.2
+  have vyoc : (parseNat (valOf (ctxOf p c) .yearOfCentury) : Int) = absI c.year % 100 :=
+    (zpad_fits 2 (absI c.year % 100) (by omega) (by omega) (by omega)).2.2
+  have vmo : (parseNat (valOf (ctxOf p c) .monthOfYear) : Int) = c.month :=
+    (zpad_fits 2 c.month (by omega) (by omega) (by omega)).2.2
+  have vd : (parseNat (valOf (ctxOf p c) .dayOfMonth) : Int) = c.day :=
+    (zpad_fits 2 c.day (by omega) (by omega) (by omega)).2.2
+  have vj : (parseNat (valOf (ctxOf p c) .dayOfYear) : Int) = c.yday :=
+    (zpad_fits 3 c.yday (by omega) (by omega) (by omega)).2.2
+  have vH : (parseNat (valOf (ctxOf p c) .hourOfDay) : Int) = p.hh :=
+    (zpad_fits 2 p.hh (by omega) (by omega) (by omega)).2.2
+  have vM : (parseNat (valOf (ctxOf p c) .minuteOfHour) : Int) = p.mi :=
+    (zpad_fits 2 p.mi (by omega) (by omega) (by omega)).2.2
+  have vS : (parseNat (valOf (ctxOf p c) .secondOfMinute) : Int) = p.ss :=
+    (zpad_fits 2 p.ss (by omega) (by omega) (by omega)).2.2
+  have vzh : (parseNat (valOf (ctxOf p c) .tzHourAbs) : Int) = tzHourAbs p.tz :=
+    (zpad_fits 2 (tzHourAbs p.tz) (by omega) t1 t2).2.2
+  have vzm : (parseNat (valOf (ctxOf p c) .tzMinuteAbs) : Int) = tzMinuteAbs p.tz :=
+    (zpad_fits 2 (tzMinuteAbs p.tz) (by omega) t3 t4).2.2
+  have vsign : valOf (ctxOf p c) .tzSign = [if tzSign p.tz < 0 then '-' else '+'] := rfl
+  have hyear : 100 * (absI c.year % 10000 / 100) + absI c.year % 100 = c.year := by rw [ha]; omega
+  have hzone := zone_back p.tz hzv
+  -- what `assemble` hands to the constructor
+  have hasm : ∀ mo d doy,
+      numOf (bindingsOf (ctxOf p c) ps) .monthOfYear = mo → numOf (bindingsOf (ctxOf p c) ps) .dayOfMonth = d →
+      numOf (bindingsOf (ctxOf p c) ps) .dayOfYear = doy →
+      assemble m cfg loc (bindingsOf (ctxOf p c) ps) =
+        mkPoint m c.year mo d doy (some p.hh) (some p.mi) (some p.ss) p.tz.h p.tz.mi := by
+    intro mo d doy hmo hd hdoy
+    unfold assemble
+    simp only [lookup_bindingsOf, hnu, ↓reduceIte, h6, vsign, sign_captured, hasZone_bindings _ _ h6,
+      hmo, hd, hdoy, numOf_bindings, h1, h2, h3, h4, h5, h7, h8, vcen, vyoc, vH, vM, vS, vzh, vzm,
+      Option.getD_some, hyear]
+    by_cases hs : tzSign p.tz < 0
+    · simp only [hs, ↓reduceIte, decide_true] at hzone ⊢
+      have hh : -tzHourAbs p.tz = p.tz.h := congrArg TZ.h hzone
+      have hm : -tzMinuteAbs p.tz = p.tz.mi := congrArg TZ.mi hzone
+      rw [hh, hm]
+    · simp only [hs, ↓reduceIte, decide_false, Bool.false_eq_true] at hzone ⊢
+      have hh : tzHourAbs p.tz = p.tz.h := congrArg TZ.h hzone
+      have hm : tzMinuteAbs p.tz = p.tz.mi := congrArg TZ.mi hzone
+      rw [hh, hm]
+  rcases hdate with ⟨d1, d2, d3⟩ | ⟨d1, d2, d3⟩
+  · let q : TP := ⟨.cal c.year c.month c.day, p.hh, p.mi, p.ss, p.tz⟩
+    have hq : q.Valid m := by
+      obtain ⟨_, b⟩ := hv
+      exact ⟨hcv, b⟩
+    refine ⟨q, ?_, ?_, hq, rfl, rfl, rfl, rfl, by simp [q, Spec.Date.rep]⟩
+    · rw [hasm (some c.month) (some c.day) none (by rw [numOf_bindings, if_pos d1, vmo])
+        (by rw [numOf_bindings, if_pos d2, vd]) (by rw [numOf_bindings, if_neg d3])]
+      exact mkPoint_valid m q hq (by simp [q, Spec.Date.rep]) _ _ _ (Or.inl ⟨c.year, c.month, c.day, rfl, rfl, rfl, rfl⟩)
+    · simp only [TP.inst, TP.secOfDay, Spec.Date.dayNum, q, hcn]
+  · let q : TP := ⟨.ord c.year c.yday, p.hh, p.mi, p.ss, p.tz⟩
+    have hr := dayNumCal_range m _ _ _ hcv
+    have hs := dby_succ m c.year
+    have hq : q.Valid m := by
+      obtain ⟨_, b⟩ := hv
+      refine ⟨?_, b⟩
+      show Spec.ValidOrd m c.year c.yday
+      unfold Spec.ValidOrd
+      rw [hcn] at hr
+      omega
+    refine ⟨q, ?_, ?_, hq, rfl, rfl, rfl, rfl, by simp [q, Spec.Date.rep]⟩
+    · rw [hasm none none (some c.yday) (by rw [numOf_bindings, if_neg d2])
+        (by rw [numOf_bindings, if_neg d3]) (by rw [numOf_bindings, if_pos d1, vj])]
+      exact mkPoint_valid m q hq (by simp [q, Spec.Date.rep]) _ _ _ (Or.inr ⟨c.year, c.yday, rfl, rfl, rfl, rfl⟩)
+    · simp only [TP.inst, TP.secOfDay, Spec.Date.dayNum, q, Spec.dayNumOrd, hyd]
+      omega
+
+/-- `%s` (without `%z`): the text is read back as the local-zone point of that Unix time. -/
+theorem assemble_unix (m : Mode) (p : TP) (c : Civil) (hux : c.unix = p.inst m - epochInst m)
+    (cfg : PCfg) (loc : TZ) (hloc : loc.Valid) (ps : List Piece) (hu : Fld.unix ∈ fldsOf ps)
+    (hns : Fld.tzSign ∉ fldsOf ps) :
+    ∃ q, assemble m cfg loc (bindingsOf (ctxOf p c) ps) = .ok q ∧ q.inst m = p.inst m ∧ q.Strict m ∧
+      q.tz = loc := by
+  obtain ⟨q, hq, hi, hs, ht⟩ := fromUnix_local m c.unix loc hloc
+  refine ⟨q, ?_, by rw [hi, hux]; omega, hs, ht⟩
+  have hv : valOf (ctxOf p c) .unix = decimalInt c.unix := by
+    show showInt c.unix = _
+    exact showInt_eq_decimalInt _
+  unfold assemble
+  simp only [lookup_bindingsOf, hu, hns, ↓reduceIte, hv, (unix_text c.unix).2, hq]
+  rfl
+
+/-! ### strptime: what is absent from the format is absent from the captured groups -/
+
+theorem keys_of_match (ps : List Piece) (data : List Char) (b : List (Fld × List Char))
+    (h : matchPieces ps data = some b) : b.map (·.1) = fldsOf ps := by
+  induction ps generalizing data b with
+  | nil =>
+    cases data with
+    | nil => simp only [matchPieces, Option.some.injEq] at h; subst h; rfl
+    | cons x xs => simp [matchPieces] at h
+  | cons x xs ih =>
+    cases x with
+    | lit ch =>
+      cases data with
+      | nil => simp [matchPieces] at h
+      | cons y ys =>
+        simp only [matchPieces] at h
+        split at h
+        · exact ih ys b h
+        · exact absurd h (by simp)
+    | fld f =>
+      unfold matchPieces at h
+      cases hp : patOf f with
+      | digits n =>
+        simp only [hp] at h
+        split at h
+        · cases hr : matchPieces xs (List.drop n data) with
+          | none => simp [hr] at h
+          | some b' =>
+            simp only [hr, Option.map_some, Option.some.injEq] at h
+            subst h
+            simp [fldsOf, ih _ b' hr]
+        · exact absurd h (by simp)
+      | signPM =>
+        simp only [hp] at h
+        cases data with
+        | nil => simp at h
+        | cons y ys =>
+          simp only at h
+          split at h
+          · cases hr : matchPieces xs ys with
+            | none => simp [hr] at h
+            | some b' =>
+              simp only [hr, Option.map_some, Option.some.injEq] at h
+              subst h
+              simp [fldsOf, ih _ b' hr]
+          · exact absurd h (by simp)
+      | unixNum =>
+        simp only [hp] at h
+        split at h
+        · cases hr : matchPieces xs (List.drop (data.length - (xs.map pieceWidth).sum) data) with
+          | none => simp [hr] at h
+          | some b' =>
+            simp only [hr, Option.map_some, Option.some.injEq] at h
+            subst h
+            simp [fldsOf, ih _ b' hr]
+        · exact absurd h (by simp)
+
+theorem lookup_absent (b : List (Fld × List Char)) (f : Fld) (h : f ∉ b.map (·.1)) : b.lookup f = none := by
+  induction b with
+  | nil => rfl
+  | cons e rest ih =>
+    simp only [List.map_cons, List.mem_cons, not_or] at h
+    obtain ⟨k, v⟩ := e
+    have : (f == k) = false := by simpa using h.1
+    simp only [List.lookup_cons, this]
+    exact ih h.2
+
+theorem mkTZ_inv (m : Mode) (h mi : Int) (z : TZ) (hz : mkTZ m h mi = some z) :
+    z = ⟨h, mi⟩ ∧ z.Valid := by
+  unfold mkTZ at hz
+  rw [minutesInHour_eq] at hz
+  by_cases c1 : h < -99 ∨ h > 99
+  · rw [if_pos c1] at hz; exact absurd hz (by simp)
+  · rw [if_neg c1] at hz
+    simp only at hz
+    by_cases c2 : mi < (if h > 0 then 0 else 1 - 60) ∨ mi > (if h < 0 then 0 else 60 - 1)
+    · rw [if_pos c2] at hz; exact absurd hz (by simp)
+    · rw [if_neg c2] at hz
+      simp only [Option.some.injEq] at hz
+      subst hz
+      refine ⟨rfl, ?_⟩
+      unfold TZ.Valid
+      simp only
+      split at c2 <;> split at c2 <;> omega
+
+/-- What an accepted `TimePoint(...)` call returns: absent clock fields are zero, an absent month or
+    day is 1 (unless a day of the year is given), the zone is the one handed in. -/
+theorem mkPoint_inv (m : Mode) (year : Int) (mo d doy hh mi ss : Option Int) (tzh tzm : Int) (q : TP)
+    (h : mkPoint m year mo d doy hh mi ss tzh tzm = .ok q) :
+    q.hh = hh.getD 0 ∧ q.mi = mi.getD 0 ∧ q.ss = ss.getD 0 ∧ q.tz = ⟨tzh, tzm⟩ ∧
+    q.date = pickDate year mo d doy ∧ q.Valid m := by
+  cases hz : mkTZ m tzh tzm with
+  | none => unfold mkPoint at h; rw [hz] at h; exact absurd h (by simp)
+  | some z =>
+    obtain ⟨hzz, hzv⟩ := mkTZ_inv m tzh tzm z hz
+    unfold mkPoint at h
+    rw [hz] at h
+    simp only at h
+    generalize pickDate year mo d doy = date at h ⊢
+    by_cases c1 : (mo.getD 0 ≠ 0 ∨ d.getD 0 ≠ 0) ∧ doy.isSome = true
+    · rw [if_pos c1] at h; exact absurd h (by simp)
+    · rw [if_neg c1] at h
+      by_cases c2 : (dateOk m date && timeOk m (hh.getD 0) (mi.getD 0) (ss.getD 0)) = true
+      · rw [if_pos c2] at h
+        simp only [Except.ok.injEq] at h
+        subst h
+        refine ⟨rfl, rfl, rfl, hzz, rfl, ?_⟩
+        simp only [Bool.and_eq_true] at c2
+        obtain ⟨hd, ht⟩ := c2
+        unfold timeOk at ht
+        rw [hoursInDay_eq, minutesInHour_eq, secondsInMinute_eq] at ht
+        simp only [Bool.and_eq_true, decide_eq_true_eq] at ht
+        obtain ⟨⟨t1, t2, t3, t4⟩, t5⟩ := ht
+        have hdv : Spec.Date.Valid m date := by
+          cases date with
+          | cal y mm dd =>
+            simp only [dateOk, monthsInYear_eq, decide_eq_true_eq] at hd
+            obtain ⟨v1, v2, v3, v4⟩ := hd
+            rw [daysInMonth_eq m y mm v1 v2] at v4
+            exact ⟨v1, v2, v3, v4⟩
+          | ord y n =>
+            simp only [dateOk, daysInYear_eq, decide_eq_true_eq] at hd
+            exact hd
+          | week y w dd => simp [dateOk] at hd
+        by_cases h24 : hh.getD 0 = 24
+        · rw [if_pos h24] at t5
+          simp only [decide_eq_true_eq] at t5
+          exact ⟨hdv, t1, t2, t3, by show mi.getD 0 < 60; omega, t4, by show ss.getD 0 < 60; omega,
+            fun _ => t5, hzv⟩
+        · rw [if_neg h24] at t5
+          simp only [decide_eq_true_eq] at t5
+          exact ⟨hdv, t1, t2, t3, t5.1, t4, t5.2, fun e => absurd e h24, hzv⟩
+      · rw [if_neg c2] at h; exact absurd h (by simp)
+
+theorem lookup_present (b : List (Fld × List Char)) (f : Fld) (h : f ∈ b.map (·.1)) :
+    ∃ v, b.lookup f = some v := by
+  induction b with
+  | nil => simp at h
+  | cons e rest ih =>
+    obtain ⟨k, v⟩ := e
+    simp only [List.map_cons, List.mem_cons] at h
+    by_cases hk : f = k
+    · subst hk; exact ⟨v, by simp [List.lookup_cons]⟩
+    · have : (f == k) = false := by simpa using hk
+      simp only [List.lookup_cons, this]
+      exact ih (h.resolve_left hk)
+
+theorem any_zone_false (b : List (Fld × List Char)) (items : List FItem)
+    (hkeys : b.map (·.1) = fldsOf (piecesOfItems items))
+    (hz : SField.zone ∉ fieldsOf items) (hu : SField.unix ∉ fieldsOf items) :
+    (b.any fun e => clsOf e.1 == .zone) = false := by
+  rw [List.any_eq_false]
+  intro e he
+  have hmem : e.1 ∈ fldsOf (piecesOfItems items) := by
+    rw [← hkeys]; exact List.mem_map_of_mem he
+  rw [mem_fldsOf_items] at hmem
+  generalize e.1 = k at hmem
+  cases k <;> first
+    | (simp [clsOf])
+    | exact absurd hmem hz
+    | exact absurd hmem hu
+
 end IsoDT.Lemmas.Strf
